@@ -56,15 +56,16 @@ def pos_list(n_pos):
 
 
 def core_events(dassh, occ_ids, kinds, n_pos, gap_flow=1.0, model='flow',
-                area_ref=None, real_asms=None):
+                area_ref=None, real_asms=None, oftf=OFTF, pitch=None):
     """Build Core(...).load(...) for the occupied spiral ids and return
     (cfg, events, core)."""
     mat = bs.const_material(dassh, 'gapcool')
     lst = np.full(n_pos, np.nan)
     for i in occ_ids:
         lst[i] = i
-    asms = real_asms or [stand_in(k) for k in kinds]
-    pitch = asms[0].duct_oftf + 0.004
+    asms = real_asms or [stand_in(k, oftf) for k in kinds]
+    if pitch is None:
+        pitch = asms[0].duct_oftf + 0.004
     ev = []
     try:
         core = dassh.core.Core(lst, pitch, gap_flow, mat,
@@ -77,6 +78,40 @@ def core_events(dassh, occ_ids, kinds, n_pos, gap_flow=1.0, model='flow',
                'pitch': [k[1] for k in kinds]}
         return cfg, [{'e': 'BuildFailed', 'exc': type(e).__name__,
                       'msg': str(e)[:160]}], None
+    cfg, ev = describe(core, asms, area_ref)
+    return cfg, ev, core
+
+
+def spiral_id(ring, pos):
+    """0-based spiral id of (ring, position), both 1-based."""
+    return 0 if ring == 1 else 3 * (ring - 1) * (ring - 2) + pos
+
+
+def reactor_events(dassh, r, case):
+    """Events of the gap mesh of a Reactor built from an input, with the
+    outer flat-to-flat and the pitch taken from the input (the largest duct
+    value of the assembly types; the reference area from a corner-only mesh
+    of the same layout with those dimensions)."""
+    oftf = max(max(float(x) for x in t['duct_ftf'])
+               for t in case['types'].values())
+    pitch = float(case['pitch'])
+    occ = sorted(spiral_id(a[1], p) for a in case['assign']
+                 for p in range(a[2], (a[4] if len(a) > 4 else a[2]) + 1))
+    n_pos = 1
+    ring = 1
+    while n_pos <= max(occ):
+        ring += 1
+        n_pos += 6 * (ring - 1)
+    cfg0, ev0, core0 = core_events(dassh, occ, [(0, 0)] * len(occ), n_pos,
+                                   oftf=oftf, pitch=pitch)
+    ref = float(core0.gap_params['total area']) if core0 is not None else None
+    cfg, ev = describe(r.core, r.assemblies, ref, oftf_truth=oftf)
+    return cfg, ev
+
+
+def describe(core, asms, area_ref, oftf_truth=None):
+    """(cfg, events) of a loaded Core."""
+    ev = []
     pos = positions(core)
     scps_of = []
     pclass = []
@@ -103,7 +138,8 @@ def core_events(dassh, occ_ids, kinds, n_pos, gap_flow=1.0, model='flow',
                    'adj': [int(x) for x in core._sc_adj[i] if x > 0],
                    'nb': int(len(asm_i))})
     # ---- geometry
-    hexp = 6 * core.duct_oftf / S3
+    hexp = 6 * (oftf_truth if oftf_truth is not None
+                else core.duct_oftf) / S3
     scale = 8 * hexp
     perim = []
     xb_ok = 1
@@ -138,4 +174,4 @@ def core_events(dassh, occ_ids, kinds, n_pos, gap_flow=1.0, model='flow',
                                     and np.all(core.gap_params['de'] > 0))),
                'xb': xb_ok, 'lsym': lsym})
     ev.append({'e': 'Seal', 'nsc': int(core.n_sc)})
-    return cfg, ev, core
+    return cfg, ev
